@@ -67,6 +67,30 @@ CHECKS = {
                 ref="DESIGN.md 4/C14",
                 text="held on the explored parameter draws x 3 seeds each; exploration over random outcomes",
                 note="requested counts never exceed the number of possible hyperedges; an add_random_edge draw that already exists may add 1 to its weight / reset its metadata (C01 re-insertion semantics)"),
+    "C15": dict(tech="runtime monitoring: postcondition oracles on HyMMSBM closed forms against brute-force sums over all possible hyperedges; trace monitor wrapped around every _w_update/_u_update of fit() (finite, non-negative, symmetric/diagonal, supplied parameters untouched) and public replays n_iter=1..T checked for ascent of the exact Poisson likelihood",
+                ref="DESIGN.md 4/C15",
+                text="held on the explored parameter sets and fit configurations, except three open known findings (N==2 division, MAP-EM under a positive prior, NaN after community underflow); exploration",
+                note="rtol 1e-9, N <= 8; differences between tol and 100*tol are inconclusive, not held"),
+    "C16": dict(tech="runtime monitoring: postcondition oracle on every hypergraph yielded by HyMMSBMSampler.sample + wrapper on _mcmc_step watching the chain state after every step (diagnostic) + metamorphic pair of equal samplers (same parameters and seed)",
+                ref="DESIGN.md 4/C16",
+                text="held on the explored sampler configurations (initial hypergraph / sequences / model), 3-4 samples each; exploration over random outcomes",
+                note="exceptions while building the initial configuration count as refused; no size-1 hyperedges"),
+    "C17": dict(tech="runtime monitoring: postcondition oracles on HypergraphMT.fit / HySC.fit + trace monitor wrapped around _update_em, _initialize_psiOmega and enforce_constraint_u (truncation events, leave-one-out bookkeeping, Lagrange solves) + log-likelihood recomputed from the definition by DP + same-seed metamorphic pair",
+                ref="DESIGN.md 4/C17",
+                text="held on the explored hypergraphs x configurations except five open known findings (Lagrange multiplier solve, decreases after truncation, epsilon regime, cancellation with diverging affinity, assertion after NaN); exploration",
+                note="K <= number of non-isolated nodes; condition-aware tolerance for the definition check; ascent judged on steps without truncation"),
+    "C18": dict(tech="runtime monitoring: " + POST + " (transition_matrix, RW_stationary_state, random_walk_density, random_walk, simplicial_contagion) + adversarial scripted replacement of numpy.random.random + sys.monitoring LINE probe recording the branches driven inside the contagion sweep + 15-line synchronous reference for the deterministic regimes",
+                ref="DESIGN.md 4/C18",
+                text="held on the explored connected hypergraphs and contagion configurations under seeded and scripted random streams; exploration",
+                note="N <= 9; 'for all seeds' decided for the seeds and scripted streams run"),
+    "C19": dict(tech="runtime monitoring: postcondition oracle on filter_hypergraph (expected result from the abstract model's remove-node relation + criteria on the public observation, all four container types) and on get_svh (exact rational binomial tail, threshold recomputed from the reported p-values, mp=True compared in a subprocess)",
+                ref="DESIGN.md 4/C19",
+                text="held on the explored containers x criteria x modes and weighted hypergraphs; exploration",
+                note="match = metadata.get(attr) in allowed values; alpha left at its default"),
+    "C20": dict(tech="runtime monitoring: postcondition oracles on the centrality functions against networkx on an independently built s-line graph / bipartite graph, scipy expm, eigen-equation residuals for CEC/HEC, and metamorphic relabelled copies",
+                ref="DESIGN.md 4/C20",
+                text="held on the explored hypergraphs, temporal hypergraphs (int and str labels) and connected uniform hypergraphs x 3 seeds; exploration",
+                note="CEC residual 1e-5*lambda, HEC ratio spread 1e-3; bands above are inconclusive"),
 }
 
 PENDING = {}
